@@ -53,6 +53,9 @@ def call(s, rng, force_bad=False):
 
 
 def cases(rng, tier):
+    # the same query several times in a row on one object
+    for c in gen.repeated_call_cases(rng, 8 if tier == "quick" else 60, ['cplx WF 20 - 4 1 3'], gen.CLAMP_BAND[:8] if False else ()):
+        yield c
     # the property's own queries AFTER other public calls on the same object (same answers as on a fresh one)
     for c in gen.after_calls_cases(rng, 16 if tier == "quick" else 120, ['cplx WF 20 - 4 1 3', 'cplx LC 5 - 4 2 2', 'cplx LZW 8 - 5 1 3']):
         yield c
@@ -86,7 +89,7 @@ def cases(rng, tier):
 
 
 def judge(case, reals, gens, specs):
-    if case.tags.get("kind") in ("after-other-calls", "after-calls-on-another-object"):
+    if case.tags.get("kind") in ("after-other-calls", "after-calls-on-another-object", "repeated-calls"):
         from ..runner import default_judge
         return default_judge(None, case, reals, gens, specs)
     out = []
